@@ -39,7 +39,42 @@ _FS_ASSUME = [
     "directory search/write permission for non-root users, atime/ctime, symlink mtimes and file bodies > 64 bytes are not modelled (not compared)",
 ]
 
+STREAMS["pack"] = {"name": "pack", "corr": "Corr.RunPack"}
+_PACK_ASSUME = _FS_ASSUME + [
+    "modelled, not verified for Pack: filepath.Walk order (sorted names), filepath.Rel/Abs/Join, os.Open following links, archive/tar FormatUnknown mtime rounding; validated per run: every case packs in a chrooted child, the slug is decoded with archive/tar and compared entry by entry (names, order, types, perms, rounded mtimes, targets, bodies, Meta) with the model",
+]
+
 PROPS = {
+    "C02": {
+        "streams": ["pack", "unpack"],
+        "theorems": "C02_rounding (nearest-second rounding, all times), C02_round_trip_instance (the composition pack;unpack evaluated on a concrete tree with the shapes the property names); the pieces hold for all inputs: C05_no_leak_without_dereference, C20_meta_describes_slug, C01_unpack_outside_unchanged. PARTIAL: the general round-trip theorem (for every tree) is not proved",
+        "assumptions": _PACK_ASSUME + ["partial: the universally quantified round trip is decided per run by (i) correspondence of the Pack model and of the Unpack model with the implementation and (ii) packing, unpacking and comparing trees on the implementation (oracle)"],
+    },
+    "C05": {
+        "streams": ["pack"],
+        "theorems": "C05_no_leak_without_dereference (all trees, options, spellings), C05_archive_position_refuted (witness of known finding KF-C05-1 for links inside dereferenced directories)",
+        "assumptions": _PACK_ASSUME,
+    },
+    "C12": {
+        "streams": ["bundle", "unpack", "pack"],
+        "theorems": "C12_error_poisons, C12_bundle_only_from_close, C12_diagnostics_forwarded (builder, all worlds and histories), C12_unpack_success_is_complete; I/O faults at byte offsets are injected into the implementation only (reader: unpack stream, writer: pack stream, every fetch/versions/source/finder call: bundle stream)",
+        "assumptions": _BUILDER_ASSUME + _PACK_ASSUME + ["partial: which library call surfaces a byte-offset fault is archive/tar / gzip buffering; the model's claim is that go-slug propagates every error it is handed; offsets are swept on the implementation (sampled in the quick tier)"],
+    },
+    "C16": {
+        "streams": ["pack", "ignore"],
+        "theorems": "C16_history_independent (ignore-filtered walk under either reachable flag state), C16_flag_states, C16_spelling_independent (non-link source arguments), C16_symlinked_root_refuted (known finding KF-C16-1)",
+        "assumptions": _PACK_ASSUME + ["partial on schedules: concurrent Pack calls race on the shared default-rule flags (a Go data race); the theorem covers the reachable flag states, not torn accesses", "C16_history_independent is stated on the abstract ignore walk (Ignore/Prune.v); Pack's walk uses the same decision procedure (Rules.excludes) and is compared with the implementation under both flag states"],
+    },
+    "C19": {
+        "streams": ["ignore", "pack", "unpack", "resolve"],
+        "theorems": "C19_rule_file_never_panics (all rule files), C19_pack_terminates_without_dereference (fuel = height of the tree, all trees), total structurally-terminating path resolution; with dereferencing: concrete hazards terminate (Example) and every run is under a watchdog",
+        "assumptions": _PACK_ASSUME + ["partial: panics and loops inside net/url, regexp, archive/tar, encoding/json are outside the model; address parsers and manifest loading are exercised by watched runs (resolve/bundle streams), termination of dereferencing Pack in general is observed (20 s watchdog), not proved"],
+    },
+    "C20": {
+        "streams": ["pack"],
+        "theorems": "C20_meta_describes_slug (every file system, option set, flag state, cwd, spelling, fuel)",
+        "assumptions": _PACK_ASSUME,
+    },
     "C01": {
         "streams": ["unpack"],
         "theorems": "C01_unpack_outside_unchanged (for every fs, clean absolute dst that is a real directory chain, every entry list, allow list, privilege and result class: fs' = put fs dst d), C01_fault_prefix, C01_lexical_resolution; by induction over entries with invariants over the abstract file system (1,000+ lines FS/FSProofs.v, Slug/UnpackSafe.v)",
